@@ -589,6 +589,20 @@ def part_d(report, tier):
                                              "load(save(%r)) -> %r" % (fmt, who, order, ptypes, extra, rec, out),
                                              {"engine": "seqmc", "part": "derived-classes", "format": fmt, "order": list(order),
                                               "parent_fields": ptypes, "extra_fields": extra, "values": list(map(repr, combo))})
+    # a JSON record with a derived field (init=False, recomputed in __post_init__)
+    def post(self):
+        self.size = len(self.name)
+    Dc = dataclasses.make_dataclass("Derived", [("name", str), ("size", int, dataclasses.field(init=False, default=0))],
+                                    bases=(wf.JsonRecord,), namespace={"__post_init__": post})
+    for name in ("", "ab", 'é"'):
+        n += 1
+        rec = Dc(name)
+        out = observe(lambda: Dc.load(rec.save()))
+        if out[0] != "ok" or not same(out[1], rec):
+            bad += 1
+            report.violation({"part": "derived-classes", "format": "json", "kind": "roundtrip", "who": "init=False field"},
+                             "JSON record with a derived field (init=False): load(save(%r)) -> %r" % (rec, out),
+                             {"engine": "seqmc", "part": "derived-classes", "format": "json", "values": [name]})
     report.part("derived-record-classes", states=n, transitions=n, evaluations=n, traces_validated_against_impl=n,
                 exhaustive=True, mismatches=bad,
                 what="parent/child record classes used in 4 orders x 3 field layouts x 3 formats, every value combination")
